@@ -88,8 +88,8 @@ Definition ex_inner : list sop :=
   [ SOp 0x75 [VLeb [0xd4; 0x7d] (-300)];
     SOp 0xa4 [VTyped [0x85; 0x01] 0x85 [1; 2; 3]] ].
 Definition ex_ops : list sop :=
-  [ SNest 0xa3 [0x16]
-      [ SNest 0xf3 [0x0b] [ SNest 0xa3 [9] ex_inner; SOp 0xed [VWasmU32 0xfffffffe] ];
+  [ SNest 0xa3 [0x1e]
+      [ SNest 0xf3 [0x12] [ SNest 0xa3 [10] ex_inner; SOp 0xed [VWasmU32 0xfffffffe] ];
         SOp 0xa0 [VInt (2 ^ 63); VLeb [0x7f] (-1)] ];
     SOp 0x94 [VInt 0x80];
     SOp 0xfa [VInt 0xdeadbeef];
@@ -100,11 +100,11 @@ Example C12_ex_wf : cfg_ok ex_cfg = true /\ wf_ops ex_cfg ex_ops = true /\
 Proof. vm_compute. repeat split; reflexivity. Qed.
 Example C12_ex_parse :
   parse_expr ex_cfg (encode_ops ex_cfg ex_ops) = Ok (annotate ex_cfg ex_ops) /\
-  nth 1 (annotate ex_cfg ex_ops) (AInt 0) = POp 0x94 "DW_OP_deref_size" [AInt 128] 24.
+  nth 1 (annotate ex_cfg ex_ops) (AInt 0) = POp 0x94 "DW_OP_deref_size" [AInt 128] 32.
 Proof. vm_compute. split; reflexivity. Qed.
 (* a canonical (minimal LEB128) input for the re-encoding corollary *)
 Definition ex_canon : list sop :=
-  [ SNest 0xf3 [0x07] [ SOp 0x75 [VLeb [0xd4; 0x7d] (-300)]; SOp 0xa7 [VInt 4; VLeb [0x20] 0x20];
+  [ SNest 0xf3 [0x09] [ SOp 0x75 [VLeb [0xd4; 0x7d] (-300)]; SOp 0xa7 [VInt 4; VLeb [0x20] 0x20];
                         SOp 0xed [VWasmLeb 1 [0x07] 7] ];
     SOp 0xa2 [VLeb [0x80; 0x01] 128] ].
 Example C12_ex_canon : wf_ops ex_cfg ex_canon = true /\ canon_ops ex_cfg ex_canon = true /\
